@@ -203,4 +203,9 @@ theorem sequential_deadlock {cap : Nat} (hcap : 0 < cap) :
         intro σ' st
         cases st <;> simp_all
 
+theorem errs_replicate (k : Nat) : errs (List.replicate k true) = k := by
+  induction k with
+  | zero => rfl
+  | succ m ih => simp [List.replicate, errs, ih]; omega
+
 end Relay
